@@ -65,8 +65,14 @@ func (x *Decimal) GobEncode() ([]byte, error) {
 // to the decoded value.
 func (z *Decimal) GobDecode(buf []byte) error {
 	if len(buf) == 0 {
-		// Other side sent a nil or default value.
+		// Other side sent a nil or default value: a zero. As with any other
+		// value, z keeps its precision and rounding mode unless its
+		// precision is 0.
+		prec, mode := z.prec, z.mode
 		*z = Decimal{}
+		if prec != 0 {
+			z.prec, z.mode = prec, mode
+		}
 		return nil
 	}
 
